@@ -66,6 +66,14 @@ def run(ck):
     files = record(ck)
     ck.validate_traces('BtdmpTrace', trace_cfg(), files)
     ck.sample_lines(files[0], 2, skip=30)
+    # 4. in the composed machine: guest programs feeding both ports through the MMIO registers (period shortened
+    #    at construction), frames/interrupts/flags compared with System.tla at every slice; idle programs go
+    #    through Btdmp::Skip inside Interpreter::Run while the specification only ticks
+    if fixed():
+        from props import sys_common
+        ck.build('sys_rec')
+        sfiles = sys_common.record(ck, ck.pick(4, 16), ck.pick(4, 12), tag='sysio', mode='io', seedoff=500)
+        sys_common.validate(ck, sfiles)
     ck.extra_cov['trace_cfg'] = trace_cfg()
     ck.assumptions += ['Btdmp.tla is a faithful reading of the C16 statement and of src/btdmp.md (reviewed by hand)',
                        'TLC, the Json/IOUtils community modules and g++ are trusted',
